@@ -612,7 +612,7 @@ def run(tier: str, seed: int, st: core.ProofStatus) -> core.Result:
                 "top-level ignore through 5 carriers. non-trivial = a plumbing case whose resolved section changes the linter's result w.r.t. defaults")
     rng = core.sub_rng(seed, PROP, tier)
     drv = core.Driver()
-    n = 160 if tier == "quick" else 3000
+    n = 400 if tier == "quick" else 3000
     cases = [gen_case(rng) for _ in range(n)]
     # corpus: witnesses of the repaired defects
     cases.insert(0, {"linter": "srp", "carriers": {"yaml": {"srp": {"check_keywords": False, "max_methods": 11, "python": {"max_methods": 14}}}}, "cli": {"max_methods": 2}, "explicit_missing": False})
